@@ -466,31 +466,47 @@ func (g *globalsInfo) funcLitsIn(n ast.Node) {
 }
 
 // aliases returns the local variables of body that are assigned an expression
-// rooted at a written package-level variable (x := &g, x := g[:], x = g.f,
-// for range g …): what they refer to may be the shared state itself, so their
-// mentions are scheduling points too (per function, flow-insensitive).
+// denoting the storage of a written package-level variable (x := &g,
+// x := g[:n], and locals derived from such an x): what they refer to is the
+// shared state itself, so their mentions are scheduling points too (per
+// function, flow-insensitive).
 func (g *globalsInfo) aliases(body ast.Node) map[string]bool {
 	t := map[string]bool{}
+	// Only expressions that denote the variable's own storage create an
+	// alias: its address (&g, &g.f, &g[i]) or a slice of it (g[:n]). A plain
+	// copy (x := g) of a pointer, map or slice header refers to heap objects
+	// reachable from g, which are outside this instrumentation by design
+	// (and tainting them makes every statement of e.g. a table-building loop
+	// a scheduling point).
 	rooted := func(e ast.Expr) bool {
+		storage := false
 		for {
 			switch x := e.(type) {
 			case *ast.UnaryExpr:
 				if x.Op != token.AND {
 					return false
 				}
+				storage = true
 				e = x.X
 				continue
 			case *ast.ParenExpr:
 				e = x.X
 				continue
-			case *ast.TypeAssertExpr:
+			case *ast.SliceExpr:
+				storage = true
 				e = x.X
 				continue
 			}
 			break
 		}
 		id := rootIdent(e)
-		return id != nil && ((g.written[id.Name] && g.isGlobal(id)) || (t[id.Name] && id.Obj != nil && !g.isGlobal(id)))
+		if id == nil {
+			return false
+		}
+		if t[id.Name] && id.Obj != nil && !g.isGlobal(id) {
+			return true // derived from an alias (s2 := s[:0], p := s)
+		}
+		return storage && g.written[id.Name] && g.isGlobal(id)
 	}
 	for pass := 0; pass < 2; pass++ {
 		ast.Inspect(body, func(n ast.Node) bool {
@@ -509,12 +525,6 @@ func (g *globalsInfo) aliases(body ast.Node) map[string]bool {
 						if x.Names[i].Name != "_" && rooted(r) {
 							t[x.Names[i].Name] = true
 						}
-					}
-				}
-			case *ast.RangeStmt:
-				if rooted(x.X) {
-					if id, ok := x.Value.(*ast.Ident); ok && id.Name != "_" {
-						t[id.Name] = true
 					}
 				}
 			}
